@@ -365,7 +365,24 @@ def call_forward(ns, case, la, lo, ell, prj):
         if c.projection is not prj:
             out = out + ('projection-object-changed',)
         return out
-    return ns.convert.geo2grid(la, lo, core.rep_value(case.get('rep'), case['zone']), ell, prj)
+    _, shape = core.delivery_of(case)
+    return core.shaped_call(ns.convert.geo2grid, ['lat', 'lon', 'zone', 'ellipsoid', 'prj'],
+                            [la, lo, core.rep_value(case.get('rep'), case['zone']), ell, prj], shape, _defaults_left_out(ns, case, shape, ell, prj))
+
+
+def _defaults_left_out(ns, case, shape, ell, prj, hemi=None):
+    """With keyword delivery, arguments that are the documented defaults (GRS80, UTM, southern hemisphere) are left out."""
+    if not shape:
+        return ()
+    C = ns.constants
+    return tuple(n for n, d in (('ellipsoid', ell is C.grs80), ('prj', prj is C.utm), ('hemisphere', hemi == 'south')) if d)
+
+
+def call_inverse(ns, case, zone, east, north, hemi, ell, prj, tag='inverse'):
+    _, shape = core.delivery_of([case, tag])
+    return core.shaped_call(ns.convert.grid2geo, ['zone', 'east', 'north', 'hemisphere', 'ellipsoid', 'prj'],
+                            list(core.rep_values(case.get('rep'), zone, east, north)) + [hemi, ell, prj], shape,
+                            _defaults_left_out(ns, case, shape, ell, prj, hemi))
 
 
 # ---------------------------------------------------------------------------------------------
@@ -490,7 +507,7 @@ def judge_forward(ns, ctx, case, aspects):
         with warnings.catch_warnings():
             warnings.simplefilter('ignore')
             try:
-                inv = ns.convert.grid2geo(*core.rep_values(case.get('rep'), zone, east, north), hemi, ell, prj)
+                inv = call_inverse(ns, case, zone, east, north, hemi, ell, prj, 'inverse-of-forward')
             except Exception as e:
                 if 'RT' in aspects:
                     ctx.violation('inverse-exception', case, {'exception': repr(e), 'grid': [zone, east, north, hemi]})
@@ -566,7 +583,7 @@ def judge_grid(ns, ctx, case, aspects):
     with warnings.catch_warnings():
         warnings.simplefilter('ignore')
         try:
-            lat, lon, psf, conv = ns.convert.grid2geo(*core.rep_values(case.get('rep'), zone, east, north), hemi, ell, prj)
+            lat, lon, psf, conv = call_inverse(ns, case, zone, east, north, hemi, ell, prj)
         except Exception as e:
             ctx.judged()
             ctx.violation('inverse-exception', case, {'exception': repr(e)})
@@ -613,7 +630,7 @@ def judge_grid(ns, ctx, case, aspects):
             with warnings.catch_warnings():
                 warnings.simplefilter('ignore')
                 try:
-                    lat_m, lon_m, psf_m, conv_m = ns.convert.grid2geo(*core.rep_values(case.get('rep'), zone, east, n_m), hemi_m, ell, prj)
+                    lat_m, lon_m, psf_m, conv_m = call_inverse(ns, case, zone, east, n_m, hemi_m, ell, prj, 'mirror')
                     ctx.count('mirror')
                     d = max(abs(lat_m + lat), abs(lon_m - lon))
                     if not ctx.ratio('C02.mirror', d, 1.5e-11):
